@@ -17,8 +17,19 @@ Every run
   4. a second overlay without the .so checks the pure-Python path: default == python, backend="rust" raises
      ImportError.
 
+  5. round-2 families (checks/C12_round2.py, same contract `_judge`): size ladder of all nine functions to 8192
+     (thorough 16385) nodes with the certifying near-linear oracles of oracles/c12_big.py; PageRank option
+     coincidence (tol placed between two consecutive sweeps of an independent power iteration, max_iter around the
+     stopping sweep); history mode (one weighted and one arc list object edited in place between calls of all
+     functions on all back ends, each program in a child of a worker that made no call, last call re-made in an
+     interpreter that made no call before); deep path-shaped graphs in a new interpreter process per case.
+
 Obligation names carry the mode, e.g. C12/floyd_warshall[undirected]/ensures:distances-identical, so that a
-known finding can be matched narrowly.
+known finding can be matched narrowly; a violation that needs a call sequence carries the suffix
+" [call history: one list object edited in place between calls]" and its case is the (shrunk) program.
+
+All budgets that decide a verdict are CPU time: ITIMER_VIRTUAL per case inside the workers, and the pool's hang
+detector follows the CPU time of a silent worker and its children in /proc (see _run_pool).
 """
 from __future__ import annotations
 
@@ -942,19 +953,66 @@ def _plan(ctx: Ctx):
     return units, scopes
 
 
-HANG_S = 90  # a worker whose current case has not changed for this long is stuck (native code ignores SIGALRM)
+HANG_S = 90  # a worker is examined once its current case has not changed for this long (wall); the verdict is by CPU time
+STALL_WALL_S = 1800  # ... or when it has used less than 1 s of CPU over this much wall time (blocked, not slow)
+
+
+def _cpu_of_tree(root_pids):
+    """{root pid: CPU seconds (user+system, reaped children included) of the process and all its live descendants}.
+    One pass over /proc; processes that vanish meanwhile are skipped."""
+    tick = os.sysconf("SC_CLK_TCK")
+    info = {}
+    for d in os.listdir("/proc"):
+        if not d.isdigit():
+            continue
+        try:
+            with open(f"/proc/{d}/stat", "rb") as f:
+                raw = f.read().decode("ascii", "replace")
+            rest = raw[raw.rindex(")") + 2:].split()
+            info[int(d)] = (int(rest[1]), (int(rest[11]) + int(rest[12]) + int(rest[13]) + int(rest[14])) / tick)
+        except Exception:  # noqa
+            continue
+    kids: dict = {}
+    for pid, (ppid, _) in info.items():
+        kids.setdefault(ppid, []).append(pid)
+    out = {}
+    for r in root_pids:
+        if r not in info:
+            out[r] = None  # the process is gone
+            continue
+        tot, todo = 0.0, [r]
+        while todo:
+            p = todo.pop()
+            if p in info:
+                tot += info[p][1]
+                todo.extend(kids.get(p, []))
+        out[r] = tot
+    return out
+
+
+def _hang_budget(rec):
+    """CPU seconds after which a case that is still running counts as hung: well above the in-process CPU alarm
+    (which turns a Python-level loop into a Timeout observation long before)."""
+    c = rec.get("case") or {}
+    if c.get("kind") == "history":
+        return 10 * CASE_ALARM_S
+    n = c.get("n", 0) if isinstance(c.get("n", 0), int) else 0
+    return (2 * 4 * CASE_ALARM_S + 60) if n > 256 else (2 * CASE_ALARM_S)
 
 
 def _run_pool(units, tmp, expect_rust, cap_s, procs=None):
-    """-> (results, hung_cases, timed_out).  Hang detection is per worker and progress based (never a global
-    wall-clock guess, so a loaded machine cannot turn slowness into a finding): every worker overwrites its
-    progress file with (counter, case) before each case; the parent kills the pool when one file shows the same
-    non-idle entry for HANG_S seconds and names that case.  cap_s only bounds the whole run (-> checker defect)."""
+    """-> (results, hung_cases, timed_out).  Hang detection is per worker, progress based and decided by CPU TIME (never
+    by a wall-clock guess, so a loaded machine cannot turn slowness into a finding): every worker overwrites its
+    progress file with (counter, case) before each case; once a file has shown the same non-idle entry for HANG_S
+    seconds the parent follows the CPU time of that worker and its children (/proc) and declares the case hung when
+    it has burnt the case's hang budget (a hang in native code never reaches the in-process CPU alarm), or when the
+    worker has used < 1 s of CPU in STALL_WALL_S of wall time (blocked).  cap_s only bounds the whole run (-> checker
+    defect)."""
     procs = procs or min(16, os.cpu_count() or 1)
     mpctx = mp.get_context("fork")
     pool = mpctx.Pool(procs, initializer=_enter_overlay, initargs=(tmp, expect_rust))
     results, hung, timed_out = [], [], False
-    last: dict = {}
+    last: dict = {}  # progress file -> [raw entry, wall time first seen, cpu of the worker tree then]
     last_scan = time.time()
     try:
         it = pool.imap_unordered(_work, units, chunksize=1)
@@ -969,6 +1027,7 @@ def _run_pool(units, tmp, expect_rust, cap_s, procs=None):
             except mp.TimeoutError:
                 pass
             now = last_scan = time.time()
+            suspects = []
             for f in glob.glob(os.path.join(tmp, "progress", "*")):
                 try:
                     raw = open(f, "rb").read()
@@ -976,11 +1035,35 @@ def _run_pool(units, tmp, expect_rust, cap_s, procs=None):
                 except Exception:
                     continue
                 if f not in last or last[f][0] != raw:
-                    last[f] = (raw, now)
+                    last[f] = [raw, now, None]
                 elif now - last[f][1] > HANG_S:
-                    c = json.loads(raw[8:])
-                    if not c.get("idle"):
-                        hung.append(c.get("case"))
+                    suspects.append(f)
+            if suspects:
+                pids = {f: int(os.path.basename(f)) for f in suspects if os.path.basename(f).isdigit()}
+                cpu = _cpu_of_tree(list(pids.values()))
+                for f, pid in pids.items():
+                    try:
+                        rec = json.loads(last[f][0][8:])
+                    except Exception:  # noqa
+                        continue
+                    if rec.get("idle"):
+                        continue
+                    if cpu.get(pid) is None:  # the worker died in the middle of this case (the pool never delivers its unit)
+                        rec_case = rec.get("case")
+                        if isinstance(rec_case, dict):
+                            rec_case = dict(rec_case, _hang="its worker process died (crash in native code?)")
+                        hung.append(rec_case)
+                        continue
+                    if last[f][2] is None:
+                        last[f][2] = (cpu[pid], now)  # CPU is followed from the moment the case became a suspect
+                        continue
+                    cpu0, t0 = last[f][2]
+                    used = cpu[pid] - cpu0
+                    if used >= _hang_budget(rec) or (now - t0 > STALL_WALL_S and used < 1.0):
+                        rec_case = rec.get("case")
+                        if isinstance(rec_case, dict):
+                            rec_case = dict(rec_case, _hang=f"{used:.0f} s of CPU in {now - t0:.0f} s of wall time (after a first {HANG_S} s without progress)")
+                        hung.append(rec_case)
             if hung:
                 break
             if now > t_end:
@@ -1055,7 +1138,10 @@ def run(ctx: Ctx):
         "PageRank, option-coincidence family only: when no sweep within the budget has a max-norm change within 1e-6 (relative) of tol, every back end must stop at "
         "the same sweep, so two OPTIMAL answers are compared with the bound tol itself ('equal within the convergence tolerance', literally)",
         "size ladder, strongly_connected_components_edges: the recursion limit is raised to 20 n + 10000 during the call, as the module's docstring advises for "
-        "deep graphs; the behaviour under the DEFAULT limit is the business of the deep family (obligation suffix '[path-shaped graph, DFS depth = n >= 1000, default recursion limit]')",
+        "deep graphs (also in the deep family, SCC depth <= 20000). Stack exhaustion is outside the contract (project assumption A3: MemoryError / RecursionError ignored): "
+        "measured limits on this tree - backend=python raises RecursionError at DFS depth ~990 under the default recursion limit (path of 1200 nodes) where backend=rust answers; "
+        "the Rust kernel's recursive strongconnect overflows the native stack (SIGSEGV of the process) between depth 40000 and 50000 (8 MiB stack); "
+        "documented with patches in triage/C12_round2.md, not judged",
         "history mode: the caller's list must hold the same elements after a call as before it (obligation edge-list-left-untouched); a difference between the last call "
         "of a program and the same call in an interpreter that made no call before is a violation (same back end, same input: status, solution and objective compared exactly)",
     ]
@@ -1099,11 +1185,12 @@ def run(ctx: Ctx):
         ctx.notes["worker_cpu_s_by_family"] = {k: round(sum(r["cpu"] for r in results if r["unit"]["kind"] == k), 1)
                                                for k in sorted({r["unit"]["kind"] for r in results})}
         for c in hung:
+            why = c.pop("_hang", "") if isinstance(c, dict) else ""
             if c.get("kind") == "history":
-                ctx.violation("C12/history/ensures:returns-on-every-backend", c, f"a worker made no progress for {HANG_S} s while executing this program and was killed")
+                ctx.violation("C12/history/ensures:returns-on-every-backend", c, f"no result for this program: {why}; the pool was stopped")
                 continue
             ctx.violation(_ob(c) + "returns-on-every-backend", c,
-                          f"a worker made no progress for {HANG_S} s while evaluating this case and was killed (a hang in native code cannot be interrupted)")
+                          f"no result for this case: {why}; the pool was stopped (a hang or crash in native code cannot be interrupted from Python)")
         if len(results) != len(units):
             ctx.notes["units_not_finished"] = len(units) - len(results)
             if timed_out:
@@ -1155,6 +1242,11 @@ def run(ctx: Ctx):
         ctx.notes["incidental_differences_not_counted"] = inc
         ctx.notes["python_vs_exact_oracle_disagreements (other properties' business, informational)"] = pvo
         ctx.notes["backends_compared"] = list(BACKENDS)
+        ctx.notes["stack_depth_limits_not_judged"] = {
+            "strongly_connected_components_edges backend=python": "RecursionError at DFS depth ~990 with the default recursion limit (docstring of solvor/scc.py tells callers to raise it); fine to depth 100000 with the limit raised",
+            "strongly_connected_components_edges backend=rust/default": "native stack overflow (SIGSEGV) between DFS depth 40000 and 50000; fine at 40000",
+            "checked range": "SCC depth <= 20000 with the recursion limit raised around the call; topological_sort/bfs/dfs to 300000 nodes (explicit stacks on both sides)",
+            "write-up": "triage/C12_round2.md"}
     finally:
         shutil.rmtree(tmp, ignore_errors=True)
         shutil.rmtree(tmp2, ignore_errors=True)
@@ -1198,7 +1290,7 @@ def replay(rec) -> int:
         print("replay:", "no violation" if ok else f"still violates: {r['counts']} {r['inc']}")
         return 0 if ok else 1
     if not r["viol"]:
-        print("replay: no violation on", json.dumps(case))
+        print("replay: no violation on", json.dumps(case)[:600])
         return 0
     for obl, lst in r["viol"].items():
         for _, c, detail in lst:
